@@ -130,10 +130,12 @@ def multiscale_harness(shape, split_dim, nstages, mode, props=("C08",)):
         m, stages = build_multiscale(tags, shape, split_dim)
         h.stages = stages
         x = h.inp("x", shape)
-        y, ld = m.forward(x)
+        c = h.inp("context", (shape[0], 1))
+        h.ctx_t = c
+        y, ld = m.forward(x, c)
         if mode == "forward":
             return y, ld
-        x2, ldi = m.inverse(y)
+        x2, ldi = m.inverse(y, c)
         return y, ld, x2, ldi
 
     def post(h, ctx, value):
@@ -143,6 +145,8 @@ def multiscale_harness(shape, split_dim, nstages, mode, props=("C08",)):
         ensure(h, ctx, "C08.routing", z3.BoolVal(bool(same_terms(P(y), want))), meta={"shape": list(P(y).shape)})
         for b in range(px.shape[0]):
             ensure(h, ctx, "C08.logdet-sum", P(ld)[b] == wl[b])
+        # every stage, the last (unsplit) one included, is called with the caller's context, in both directions
+        ensure(h, ctx, "C08.context-passed", z3.BoolVal(all(st.calls and all(c_ is h.ctx_t for _, c_ in st.calls) for st in h.stages)))
         # each input coordinate reaches exactly one output position
         from tsv.terms import base_symbols
         seen = {}
@@ -255,6 +259,13 @@ def composite_harness(name, desc, shape, direction):
             ensure(h, ctx, "C08.logdet-sum", P(ld)[b] == wl[b])
         ensure(h, ctx, "C08.context-passed", z3.BoolVal(all(all(c is h.ctx_t for _, c in st.calls) for st in h.stages)))
         ensure(h, ctx, "C13.no-write", z3.BoolVal(not [w for w in ctx.writes if w[0].startswith("arg:")]))
+        # induction over the number of stages: the loop of _cascade carries (outputs, total_logabsdet) and nothing else from one iteration to the
+        # next, and the stages are uninterpreted, so a composite of n stages is the two-stage case with an arbitrary first stage
+        from tsv.instrument import loop_carried
+        from nflows.transforms.base import CompositeTransform
+        lc = loop_carried(CompositeTransform._cascade)
+        ctx.oblige("proof-side-condition", z3.BoolVal(len(lc) == 1 and lc[0][1] == ["outputs", "total_logabsdet"]), label="C08.cascade-loop-carries-outputs-and-total-only",
+                   loc=("contract", h.hid.split("[")[0], 0), meta={"loops": str(lc)})
 
     def native_build():
         from nflows.transforms import nonlinearities as NL, standard as ST
